@@ -88,6 +88,9 @@ type ProviderSpec struct {
 	DeclOrder         int
 	IsReturnError     bool
 	IsAsync           bool
+	// IsVariadic reports that the provider function is variadic: its last requirement
+	// is the slice []T, which the call has to spread (f(xs...)).
+	IsVariadic bool
 }
 
 type Return struct {
